@@ -6,6 +6,7 @@ oracle_c09 — line protocol (state: sparse threshold, bitmap registers `a`,`b`,
 U32BitTip blocks; block operands are list indices):
   new | magic <m> | load <r> <hex,…16> | dump <r>          as in oracle_c08
   marshal <r>                       → <hexbytes> | - (empty) | panic
+  marshal-mutate <r>                → <hexbytes> <hex,…16>   (Marshal, then the returned bytes are overwritten: bitmap unchanged)
   unmarshal <r> <hexbytes|->        → ok | err:range:<n> | err:length:<n> | err:element:<v> | panic   (mutates r)
   roundtrip <r>                     → true | false | panic     (Unmarshal(Marshal r) into a fresh bitmap equals r)
   big.fromi64 <v>                   → ok | err                 (appends a block)
@@ -118,6 +119,7 @@ def setAt (l : List Block) (k : Nat) (b : Block) : List Block := l.set k b
 def step (st : S) (line : String) : S × String :=
   match words line with
   | ["new"] => (init, "ok")
+  | ["probe-api"] => (st, "ok")   -- monitor-only: the Go side calls every exported method once and checks shared state
   | ["magic", m] => match parseInt? m with
     | some m => if inI32 m then ({ st with magic := m }, s!"magic={m}") else (st, "bad-op")
     | none => (st, "bad-op")
@@ -126,6 +128,10 @@ def step (st : S) (line : String) : S × String :=
     | _, _ => (st, "bad-op")
   | ["dump", r] => match reg st r with
     | some b => (st, showMap b)
+    | none => (st, "bad-op")
+  | ["marshal-mutate", r] => match reg st r with
+    -- the Go side overwrites the bytes `Marshal` returned; a detached result leaves the bitmap as it was
+    | some b => (st, match marshal cfg st.magic b with | some bs => showBytes bs ++ " " ++ showMap b | none => "panic")
     | none => (st, "bad-op")
   | ["marshal", r] => match reg st r with
     | some b => (st, match marshal cfg st.magic b with | some bs => showBytes bs | none => "panic")
